@@ -65,9 +65,6 @@ MUTANTS = {
     "m18_input_section_schema_not_reset": (["C17", "C05"], [("pandora/check_configuration.py",
         '    input_configuration_schema["right"].update(base_input_configuration_schema["right"])\n',
         '    if isinstance(cfg["input"]["left"]["disp"], str):\n        input_configuration_schema["right"].update(base_input_configuration_schema["right"])\n')]),
-    "m19_run_prepare_keeps_right_map": (["C18"], [("pandora/state_machine.py",
-        '        # Initiate output disparity datasets\n        self.left_disparity = xr.Dataset()\n        self.right_disparity = xr.Dataset()\n',
-        '        # Initiate output disparity datasets\n        self.left_disparity = xr.Dataset()\n        if self.right_disparity is None:\n            self.right_disparity = xr.Dataset()\n')]),
     "m20_bilateral_mutates_mask": (["C10", "C04"], [("pandora/filter/bilateral.py",
         '        disp["disparity_map"].data[valid] = disp_bilateral[valid]\n        disp.attrs["filter"] = "bilateral"\n',
         '        disp["disparity_map"].data[valid] = disp_bilateral[valid]\n        disp["validity_mask"].data[~np.isfinite(disp["disparity_map"].data)] |= cst.PANDORA_MSK_PIXEL_FILLED_NODATA\n        disp.attrs["filter"] = "bilateral"\n')]),
